@@ -73,6 +73,14 @@ NODES = {
     "arrayelem": ("let  t=[ {A} {N} , [ 2 ,3 ] ] ;", "[ 1 ,qz ]"),
     "binop": ("let  t=1+ {A} {N} ;", "( qz  *  2 )"),
     "retval": ("return  {A} {N} ;", "[ 1 ,qz ]"),
+    # the skip attribute written as an INNER attribute of the node's own body (@AI@)
+    "fn_inner": ("{N}", "fn   qz ( a : u32 ,b:u32 )  {\n    @AI@\n    let  x=1 ;\n}"),
+    "impl_inner": ("{N}", "impl   Qz  {\n    @AI@\n    fn  f ( ) { }\n}"),
+    "trait_inner": ("{N}", "trait   Qz  {\n    @AI@\n    fn  f ( ) ;\n}"),
+    "mod_inner": ("{N}", "mod   qz  {\n    @AI@\n    fn  f ( ) { }\n}"),
+    "foreign_inner": ("{N}", "extern  \"C\"  {\n    @AI@\n    fn   qz ( a : u32 ) ;\n}"),
+    "afn_inner": ("{N}", "fn   qz ( & self ,a:u32 )  {\n    @AI@\n    let  x=1 ;\n}"),
+    "block_inner": ("let  b={N} ;", "{\n    @AI@\n    qz ( 1 ,2 )\n}"),
 }
 
 
@@ -145,6 +153,7 @@ def render(sc):
             raise ToolError(f"unknown target {t}")
     else:
         tpl, node = NODES[sc["node"]]
+        node = node.replace("@AI@", SPELL[sc["spelling"]].replace("#[", "#![", 1))
         inner = tpl.format(A=SPELL[sc["spelling"]], N=node)
         marker = node
     path = sc["path"]
@@ -372,7 +381,7 @@ def run(tier, seed, replay=None):
     cov = {"evaluations": len(jobs) + n_oo, "distinct_nontrivial": len(nontriv),
            "rule": "Skip.tla scenarios (paths of depth <= 3 over 14 constructs, declarations on every "
                    "declaring construct and on the crate, 3 settings of skip_macro_invocations, 8 name "
-                   "targets, 32 node kinds x 6 spellings) rendered and formatted; quick = every cell "
+                   "targets, 48 node kinds x 6 spellings) rendered and formatted; quick = every cell "
                    "(target/node, spelling/cfg, declaring constructs, innermost construct) once plus a "
                    "seed-chosen sample; distinct_nontrivial = distinct (target or node, innermost "
                    "construct) cells; plus 17 whole-file opt-outs x 4 emit modes through the binary",
